@@ -69,6 +69,9 @@ def build(eng, tier):
         params=dict(current_offset=INT, tensor_size=INT, **opt),
         requires=["current_offset >= 0", "alignment is None or alignment > 0"],
         ensures=["aligned_ok(result, current_offset, tensor_size, alignment, align_threshold)"], reveal=["align_rule"]))
+    eng.add_lemma("align_rule_at_zero",
+                  "forall(lambda nb=int, al=optint, thr=int: implies(al is None or al > 0, align_rule(0, 0, nb, al, thr)))",
+                  reveal=["align_rule"])
     # from here on _align_offset is used through its contract (modular); align_rule stays opaque
     align_contract = FnDecl(f"{ED}._align_offset", "contract", ED, "_align_offset",
         requires=["current_offset >= 0", "alignment is None or alignment > 0"],
@@ -112,3 +115,69 @@ def build(eng, tier):
                     "forall(lambda j=int: implies(0 <= j and j < k, fresh(acc[j]) and allocated(acc[j])))"],
                 modifies=["ExternalTensor.*", "%s.$v" % eng.LIST(ET).cls, "$alloc"], elem=ET),
         }))
+
+    # L4: _shard_tensors -------------------------------------------------------------------------------------
+    # Ghost state: g_starts[i] = index in `tensors` of the first tensor of shard i; per tensor t: g_off[t] = its offset
+    # inside its shard, g_first[t] = 1 iff it opens a shard.
+    LT = eng.LIST(T)
+    LLT = eng.LIST(LT)
+    eng.spec_fn('''
+def shards_wf(shards, starts, n_done):
+    return (len(shards) >= 1 and len(starts) == len(shards) and starts[0] == 0 and
+            forall(lambda i=int: implies(0 <= i and i < len(shards), nonnull(shards[i]) and allocated(shards[i]) and fresh(shards[i]))) and
+            forall(lambda i=int, i2=int: implies(0 <= i and i < i2 and i2 < len(shards), shards[i] is not shards[i2])) and
+            forall(lambda i=int: implies(0 <= i and i < len(shards) - 1, starts[i + 1] == starts[i] + len(shards[i]) and len(shards[i]) >= 1)) and
+            forall(lambda i=int: implies(0 <= i and i < len(shards), 0 <= starts[i] and starts[i] + len(shards[i]) <= n_done)) and
+            forall(lambda i=int, i2=int: implies(0 <= i and i < i2 and i2 < len(shards), starts[i] + len(shards[i]) <= starts[i2])) and
+            starts[len(shards) - 1] + len(shards[len(shards) - 1]) == n_done)
+
+def shards_partition(tensors, shards, starts):
+    return forall(lambda i=int, j=int: implies(0 <= i and i < len(shards) and 0 <= j and j < len(shards[i]),
+                  shards[i][j] is tensors[starts[i] + j]))
+
+def first_link(shards, starts, first):
+    return forall(lambda i=int, t=int: implies(0 <= i and i < len(shards) and starts[i] <= t and t < starts[i] + len(shards[i]),
+                  first[t] == ite(t == starts[i], 1, 0)))
+
+def layout_t(tensors, off, first, n, alignment, thr):
+    return forall(lambda t=int: implies(0 <= t and t < n, off[t] >= 0 and (first[t] == 0 or first[t] == 1) and
+                  aligned_ok(off[t], ite(first[t] == 1, 0, off[t - 1] + tensors[t - 1].nbytes), tensors[t].nbytes, alignment, thr)))
+
+def bounded_t(tensors, off, first, n, limit):
+    return forall(lambda t=int: implies(0 <= t and t < n,
+                  off[t] + tensors[t].nbytes <= limit or (first[t] == 1 and implies(t + 1 < n, first[t + 1] == 1))))
+
+def shard_end(tensors, shards, starts, off, i):
+    return off[starts[i] + len(shards[i]) - 1] + tensors[starts[i] + len(shards[i]) - 1].nbytes
+''')
+    eng.add_target(Target("_shard_tensors", mod=ED, qual="_shard_tensors",
+        params=dict(tensors=TSeq(T), max_shard_size_bytes=INT, **opt),
+        requires=["nbytes_nonneg(tensors)", "alignment is None or alignment > 0"],
+        ensures=["shards_wf(result, g_starts, len(tensors))",
+                 "shards_partition(tensors, result, g_starts)",
+                 "len(result[len(result) - 1]) >= 1 or len(tensors) == 0",
+                 "len(g_off) == len(tensors) and len(g_first) == len(tensors)",
+                 "first_link(result, g_starts, g_first)",
+                 "layout_t(tensors, g_off, g_first, len(tensors), alignment, align_threshold)",
+                 "bounded_t(tensors, g_off, g_first, len(tensors), max_shard_size_bytes)",
+                 # hint (instance of first_link at the last slot of each shard), then the statement's clause per shard:
+                 # a shard exceeds the limit only if it holds a single tensor
+                 "forall(lambda i=int: implies(0 <= i and i < len(result) and len(result[i]) >= 1, "
+                 "g_first[g_starts[i] + len(result[i]) - 1] == ite(len(result[i]) == 1, 1, 0)))",
+                 "forall(lambda i=int: implies(0 <= i and i < len(result) and len(result[i]) >= 1, "
+                 "shard_end(tensors, result, g_starts, g_off, i) <= max_shard_size_bytes or len(result[i]) == 1))"],
+        local_types={"shards": LLT},
+        ghost_init="g_starts = IntSeq(0)\ng_off = IntSeq()\ng_first = IntSeq()",
+        ghost=[("shards.append([])", "after", "g_starts = g_starts + IntSeq(g_k)"),
+               ("shards[-1].append(tensor)", "after",
+                "g_off = g_off + IntSeq(offset)\ng_first = g_first + IntSeq(ite(len(shards[len(shards) - 1]) == 1, 1, 0))")],
+        loops={0: LoopSpec(invariant=[
+            "shards_wf(shards, g_starts, k)",
+            "shards_partition(tensors, shards, g_starts)",
+            "len(shards[len(shards) - 1]) >= 1 or k == 0",
+            "len(g_off) == k and len(g_first) == k", "shard_size >= 0",
+            "first_link(shards, g_starts, g_first)",
+            "layout_t(tensors, g_off, g_first, k, alignment, align_threshold)",
+            "bounded_t(tensors, g_off, g_first, k, max_shard_size_bytes)",
+            "shard_size == ite(k == 0, 0, g_off[k - 1] + tensors[k - 1].nbytes)",
+        ], modifies=["%s.$v" % LT.cls, "%s.$v" % LLT.cls, "$alloc"])}))
